@@ -201,11 +201,27 @@ Definition decode (s : str) (now : Z) : dec :=
   end.
 
 (* ---------- the request ---------- *)
-Inductive meth := GET | HEAD | OPTIONS | POST | PUT | DELETE | PATCH.
+(* request methods are arbitrary strings: a handler may declare further verbs
+   (PROPFIND, MKCOL, ...) through SUPPORTED_METHODS *)
+Definition M_GET : str := [71;69;84].
+Definition M_HEAD : str := [72;69;65;68].
+Definition M_OPTIONS : str := [79;80;84;73;79;78;83].
+Definition M_POST : str := [80;79;83;84].
+(* RequestHandler.SUPPORTED_METHODS of the base class *)
+Definition default_supported : list str :=
+  [M_GET; M_HEAD; M_POST; [68;69;76;69;84;69]; [80;65;84;67;72]; [80;85;84]; M_OPTIONS].
+
+Definition str_eqb (a b : str) : bool := list_eqb N.eqb a b.
+Fixpoint mem_str (m : str) (l : list str) : bool :=
+  match l with
+  | [] => false
+  | x :: t => str_eqb m x || mem_str m t
+  end.
 
 Record req := mkreq {
   r_xsrf_on : bool;            (* Application setting xsrf_cookies *)
-  r_method : meth;
+  r_method : str;              (* request.method, exactly as sent (comparisons are case-sensitive) *)
+  r_supported : list str;      (* the handler class's SUPPORTED_METHODS *)
   r_outver : N;                (* Application setting xsrf_cookie_version *)
   r_cookie : option str;       (* get_cookie("_xsrf") *)
   r_fields : list str;         (* request.arguments["_xsrf"], utf-8 decoded, in order *)
@@ -216,8 +232,8 @@ Record req := mkreq {
   r_now : Z                    (* time.time(), whole seconds *)
 }.
 
-Definition safe_method (m : meth) : bool :=
-  match m with GET | HEAD | OPTIONS => true | _ => false end.
+(* method in ("GET", "HEAD", "OPTIONS") *)
+Definition safe_method (m : str) : bool := mem_str m [M_GET; M_HEAD; M_OPTIONS].
 
 Definition norm_field (v : str) : str := strip_with str_space (ctrl_to_space v).
 (* get_argument("_xsrf", None): the last value, normalised *)
@@ -282,7 +298,8 @@ Definition gate (r : req) : bool := negb (safe_method (r_method r)) && r_xsrf_on
 
 (* _execute with a handler whose every method returns self.xsrf_token *)
 Definition handle (r : req) : resp :=
-  if gate r && negb (xsrf_ok r) then mkresp 403 false None None
+  if negb (mem_str (r_method r) (r_supported r)) then mkresp 405 false None None   (* HTTPError(405) *)
+  else if gate r && negb (xsrf_ok r) then mkresp 403 false None None
   else
     match issue (r_outver r) (r_mask r) (raw_token r) with
     | Some t =>
@@ -290,3 +307,89 @@ Definition handle (r : req) : resp :=
                (match fst (fst (raw_token r)) with None => Some t | Some _ => None end)
     | None => mkresp 500 true None None
     end.
+
+(* ---------- the Cookie header: httputil.parse_cookie, _unquote_cookie,
+   HTTPServerRequest.cookies, RequestHandler.get_cookie ---------- *)
+Definition XSRF_NAME : str := [95;120;115;114;102].        (* "_xsrf" *)
+
+(* chunk.split("=", 1) when "=" is in the chunk *)
+Fixpoint split_first (sep : N) (s : str) : option (str * str) :=
+  match s with
+  | [] => None
+  | c :: r =>
+      if c =? sep then Some ([], r)
+      else match split_first sep r with
+           | Some (k, v) => Some (c :: k, v)
+           | None => None
+           end
+  end.
+
+Definition oct3 (a b c : N) : bool := inr 48 51 a && inr 48 55 b && inr 48 55 c.
+
+(* _unquote_sub: backslash + three octal digits -> that character; backslash +
+   any other character except newline -> that character *)
+Fixpoint unq (s : str) : str :=
+  match s with
+  | [] => []
+  | c0 :: t0 =>
+      if c0 =? 92 then
+        match t0 with
+        | [] => [92]
+        | a :: t1 =>
+            if a =? 10 then 92 :: unq t0
+            else
+              match t1 with
+              | b :: c :: r =>
+                  if oct3 a b c then (64 * (a - 48) + 8 * (b - 48) + (c - 48)) :: unq r
+                  else a :: unq t1
+              | _ => a :: unq t1
+              end
+        end
+      else c0 :: unq t0
+  end.
+
+(* _unquote_cookie: only a value of length >= 2 that starts and ends with a double quote is unquoted *)
+Definition unquote_cookie (s : str) : str :=
+  match s with
+  | c :: ((_ :: _) as t) =>
+      if c =? 34 then
+        match List.rev t with
+        | l :: m => if l =? 34 then unq (List.rev m) else s
+        | [] => s
+        end
+      else s
+  | _ => s
+  end.
+
+Definition is_nil (s : str) : bool := match s with [] => true | _ => false end.
+
+Definition chunk_kv (ch : str) : str * str :=
+  match split_first 61 ch with
+  | Some (k, v) => (strip_with str_space k, strip_with str_space v)
+  | None => ([], strip_with str_space ch)
+  end.
+
+(* the dict built by parse_cookie, looked up at [name]: the last chunk wins *)
+Fixpoint lookup_chunks (name : str) (chs : list str) (acc : option str) : option str :=
+  match chs with
+  | [] => acc
+  | ch :: t =>
+      let '(k, v) := chunk_kv ch in
+      lookup_chunks name t
+        (if (negb (is_nil k) || negb (is_nil v)) && str_eqb k name then Some (unquote_cookie v) else acc)
+  end.
+
+(* get_cookie("_xsrf") for a request whose Cookie header has this value *)
+Definition cookie_of_header (hdr : str) : option str :=
+  let '(p, ps) := split_on 59 hdr in lookup_chunks XSRF_NAME (p :: ps) None.
+
+Definition with_cookie (r : req) (c : option str) : req :=
+  mkreq (r_xsrf_on r) (r_method r) (r_supported r) (r_outver r) c (r_fields r) (r_hx r) (r_hc r)
+        (r_rnd r) (r_mask r) (r_now r).
+
+(* a case is a request plus, optionally, the raw Cookie header it arrived with *)
+Definition apply_header (h : option str) (r : req) : req :=
+  match h with
+  | Some hdr => with_cookie r (cookie_of_header hdr)
+  | None => r
+  end.
